@@ -233,6 +233,7 @@ struct Step
   int pre = 0;        // 0 nothing, 1 next() steps, 2 setEndPoint(x)+next() steps, 3 setOriginPoint(y)+setEndPoint(x)+next() steps
   int nNext = 0;
   int form = 0;       // 0 cast(o,e), 1 setOriginPoint(o)+cast(e), 2 cast(e) with the origin the caster already holds
+  bool aliasOrigin = false;   // form 0 with the origin passed as a reference to the caster's own end point (polyline chaining)
 };
 
 template<typename S, size_t D>
@@ -275,7 +276,7 @@ void body(vf::Ctx & c)
   std::vector<Step> steps(nCasts);
   std::vector<Ray<D>> rays(nCasts);
   std::vector<std::array<double, D>> preOrigin(nCasts), preEnd(nCasts);
-  bool haveOrigin = false;
+  bool haveOrigin = false, anyAlias = false;
   std::array<double, D> curOrigin{};
   for (int k = 0; k < nCasts; ++k) {
     Step & st = steps[k];
@@ -290,7 +291,11 @@ void body(vf::Ctx & c)
     std::array<double, D> tmp;
     if (st.form == 2) {fixed = &curOrigin;} else if (k > 0) {
       size_t reuse = c.s.pick("o_reuse", {4, 1, 1});
-      if (reuse == 1) {tmp = rays[k - 1].o; fixed = &tmp;} else if (reuse == 2) {tmp = rays[k - 1].e; fixed = &tmp;}
+      if (reuse == 1) {tmp = rays[k - 1].o; fixed = &tmp;} else if (reuse == 2) {
+        tmp = rays[k - 1].e; fixed = &tmp;
+        // the caster still holds that end point unless a leftover setEndPoint() replaced it
+        if (st.form == 0 && st.pre <= 1) {st.aliasOrigin = c.s.flag("origin_is_reference_to_own_end_point"); anyAlias = anyAlias || st.aliasOrigin;}
+      }
     }
     rays[k] = genRay<S, D>(c, ax, res, fixed);
     if (k > 0 && c.s.flag("e_reuse", 1, 5)) {rays[k].e = rays[k - 1].e;}
@@ -298,6 +303,9 @@ void body(vf::Ctx & c)
     haveOrigin = true;
   }
   c.labelIf(nCasts >= 2, "reused-caster");
+  c.labelIf(anyAlias, "cast(own getEndPoint() reference, e)");
+  const bool gridAssignedLater = c.s.flag("grid_configured_after_the_caster_was_bound", 1, 4);
+  c.labelIf(gridAssignedLater, "grid-configured-after-binding");
   c.label(ctor == 0 ? "ctor-maximal-range" : "ctor-interval");
   c.commit();
 
@@ -310,7 +318,13 @@ void body(vf::Ctx & c)
     for (size_t d = 0; d < D; ++d) {lo[d] = static_cast<S>(ax[d].lo); hi[d] = static_cast<S>(ax[d].hi);}
     mp.reset(new Map(romea::core::Interval<S, D>(lo, hi), static_cast<S>(res)));
   }
-  Map & m = *mp;
+  // the caster under test is bound to the grid object; optionally the grid object only receives its final
+  // configuration afterwards (the caster keeps a pointer to it, so it must see the new configuration)
+  std::unique_ptr<Map> bound;
+  if (gridAssignedLater) {bound.reset(new Map(static_cast<S>(3), static_cast<S>(1)));} else {bound.reset(new Map(*mp));}
+  Map & m = *bound;
+  std::unique_ptr<romea::core::RayCasting<S, D>> casterHolder(new romea::core::RayCasting<S, D>(&m));
+  if (gridAssignedLater) {m = *mp;}
   const Idx n = m.getNumberOfCellsAlongAxes();
   auto toPt = [](const std::array<double, D> & a) {
       Pt p;
@@ -434,7 +448,7 @@ void body(vf::Ctx & c)
       c.labelIf(eb, "border-end");
     };
 
-  Caster caster(&m);
+  Caster & caster = *casterHolder;
   for (int k = 0; k < nCasts; ++k) {
     const Step & st = steps[k];
     const Ray<D> & r = rays[k];
@@ -452,7 +466,11 @@ void body(vf::Ctx & c)
       for (int q = 0; q < st.nNext; ++q) {caster.next(scratch);}
     }
     Chain got;
-    if (st.form == 0) {
+    if (st.form == 0 && st.aliasOrigin) {
+      // the origin argument IS the caster's own end point object
+      c.harnessCheck((caster.getEndPoint() - toPt(r.o)).norm() == 0, "aliased origin differs from the previous end point");
+      got = caster.cast(caster.getEndPoint(), toPt(r.e));
+    } else if (st.form == 0) {
       got = caster.cast(toPt(r.o), toPt(r.e));
     } else if (st.form == 1) {
       caster.setOriginPoint(toPt(r.o));
